@@ -520,6 +520,14 @@ class CFG:
             bound = {x.id for x in t.elts if isinstance(x, ast.Name)}
             if len(hits) == 1 and not any(isinstance(y, ast.Name) and y.id in bound for v in st.value.elts for y in ast.walk(v)):
                 return hits[0]
+        elif isinstance(t, (ast.Tuple, ast.List)) and not isinstance(st.value, (ast.Tuple, ast.List)) and \
+                not any(isinstance(x, ast.Starred) for x in t.elts):
+            # a, b, c = f(x): name is element i of the value (written f(x)[i]; never a "pure chain", so only the symbolic
+            # expansion follows it)
+            idx = [i for i, x in enumerate(t.elts) if isinstance(x, ast.Name) and x.id == name]
+            bound = {x.id for x in t.elts if isinstance(x, ast.Name)}
+            if len(idx) == 1 and not any(isinstance(y, ast.Name) and y.id in bound for y in ast.walk(st.value)):
+                return ast.Subscript(value=st.value, slice=ast.Constant(value=idx[0]), ctx=ast.Load())
         return None
 
     def canon_text(self, n: Node, expr, depth=4) -> str:
@@ -1112,6 +1120,13 @@ def _atoms(test, polarity, out):
         return
     if isinstance(test, ast.Compare) and len(test.ops) == 1:
         op = test.ops[0]
+        # (a, b) == (c, d) known true (or (a, b) != (c, d) known false): the element-wise equalities hold
+        lt, rt = test.left, test.comparators[0]
+        if isinstance(lt, ast.Tuple) and isinstance(rt, ast.Tuple) and len(lt.elts) == len(rt.elts) and lt.elts and \
+                ((isinstance(op, ast.Eq) and polarity) or (isinstance(op, ast.NotEq) and not polarity)):
+            for a, b in zip(lt.elts, rt.elts):
+                _atoms(ast.Compare(left=a, ops=[ast.Eq()], comparators=[b]), True, out)
+            return
         l, r = ast.unparse(test.left), ast.unparse(test.comparators[0])
         neg = {ast.IsNot: 'is', ast.NotEq: '==', ast.NotIn: 'in'}
         for k, v in neg.items():
